@@ -162,6 +162,11 @@ func DecodeSerializedValues(p []byte) ([]byte, []byte, []byte, uint16, uint32, e
 		return nil, nil, nil, 0, 0, err
 	}
 
+	// the blob must be exactly the serialisation: nothing may follow the code
+	if len(p) != 0 {
+		return nil, nil, nil, 0, 0, fmt.Errorf("%d trailing bytes after the program code", len(p))
+	}
+
 	return c, o, w, uint16(z), uint32(s), nil
 }
 
